@@ -352,7 +352,7 @@ func (w *c15World) honestPower(votes []cometabci.ExtendedVoteInfo, height int64,
 	return perPair, total, values
 }
 
-var c15Kinds = []weighted{{"honest", 30}, {"subset", 3}, {"missing", 3}, {"duplicate", 2}, {"dup-forged", 2}, {"other-key", 1}, {"wrong-chain", 1}, {"height+1", 1}, {"height-1", 1}, {"round+1", 1},
+var c15Kinds = []weighted{{"honest", 30}, {"subset", 3}, {"missing", 3}, {"duplicate", 2}, {"dup-forged", 2}, {"odd-flag-forged", 2}, {"other-key", 1}, {"wrong-chain", 1}, {"height+1", 1}, {"height-1", 1}, {"round+1", 1},
 	{"altered", 1}, {"unknown-validator", 2}, {"nil-vote", 2}, {"absent", 2}, {"nil-with-payload", 1}, {"no-signature", 1}, {"oversized", 1}, {"unknown-pair", 1}, {"no-timestamp", 1}}
 
 func TestC15Rapid(t *testing.T) {
@@ -426,6 +426,14 @@ func TestC15Rapid(t *testing.T) {
 					} else {
 						forgedEntry.ExtensionSignature = w.buildEntry(rt, "honest", v, height, round, ts, basePrice).ExtensionSignature
 					}
+					votes = append(votes, w.buildEntry(rt, "honest", v, height, round, ts, basePrice), forgedEntry)
+					forged++
+				case "odd-flag-forged":
+					// after the genuine vote: an entry for the same validator whose block-id flag is not one of
+					// commit / nil / absent (0 = unknown, or out of range), with a forged extension and no signature
+					forgedEntry := w.buildEntry(rt, "honest", v, height, round, ts, basePrice*7+13)
+					forgedEntry.BlockIdFlag = cmtproto.BlockIDFlag(rapid.SampledFrom([]int32{0, 7, 4, -1}).Draw(rt, "oddflag"))
+					forgedEntry.ExtensionSignature = nil
 					votes = append(votes, w.buildEntry(rt, "honest", v, height, round, ts, basePrice), forgedEntry)
 					forged++
 				case "unknown-validator":
